@@ -607,12 +607,14 @@ def rule_canon(m):
     rel_done = {}
     uprooted_cleared = {}
     pending_drains = []
+    acc = None
     for s in stmts:
         if kind(s) == "let":
             pn = s["p"]
             while kind(pn) == "ptype":
                 pn = pn["p"]
-            if kind(pn) == "pid" and pn["n"] == "non_canonical_rows":
+            if kind(pn) == "pid" and expr_str(s["e"]) == "Vec::new()":
+                acc = pn["n"]       # the accumulator of stale rows (any name)
                 if pending_drains:
                     res.bad("T-CANON:canonicalize:drained-not-processed", m.where(s, site), "rows drained from %s are dropped" % [d[1] for d in pending_drains])
                 pending_drains = []
@@ -632,7 +634,7 @@ def rule_canon(m):
             if up is not None:
                 names = pat_names(e["p"])
                 rem = [c for c in walk(e["b"]) if mcall(c, "remove") and self_field(c["r"]) and self_field(c["r"]).endswith("_element_index")]
-                push = [c for c in walk(e["b"]) if mcall(c, "push") and is_path(c["r"], "non_canonical_rows")]
+                push = [c for c in walk(e["b"]) if mcall(c, "push") and acc is not None and is_path(c["r"], acc)]
                 if len(rem) == 1 and len(push) == 1 and names and len(names) == 1:
                     arg = rem[0]["a"][0] if rem[0]["a"] else None
                     if expr_str(arg) not in ("&%s.0" % names[0],):
@@ -642,7 +644,7 @@ def rule_canon(m):
                     res.bad("T-CANON:canonicalize:drain-shape", m.where(e, site), "uprooted loop for %s does not drain exactly one element index" % up)
                 continue
             # for [el0, ..] in non_canonical_rows.into_iter().flatten() { .. }
-            if "non_canonical_rows" in expr_str(it):
+            if acc is not None and any(is_path(x, acc) for x in walk(it)):
                 names = pat_names(e["p"])
                 rel = _canon_rel_block(res, m, e, names, pending_drains, site)
                 if rel:
